@@ -241,7 +241,8 @@ class Ctx:
         step = sample_every or max(1, len(cases) // 2)
         for i in range(0, len(cases), step):
             if len([s for s in self.samples if s["stream"] == stream]) < 3:
-                self.samples.append({"stream": stream, "kind": kind.name, "args": cases[i], "impl": outs[i][:300]})
+                arg = {k: v for k, v in cases[i].items() if not k.startswith("_")} if isinstance(cases[i], dict) else cases[i]
+                self.samples.append({"stream": stream, "kind": kind.name, "args": arg, "impl": outs[i][:300]})
         # model
         if kind.model and self.driver_ok:
             idx, lines, flat, spans = [], [], [], []
